@@ -17,3 +17,7 @@ pub fn strategy() -> BoxedStrategy<AdapterCase> {
 pub fn run_case(_case: &AdapterCase) -> CaseReport {
     CaseReport { inconclusive: Some("built without the real-adapter family".into()), ..Default::default() }
 }
+
+pub fn close_with_full_pipe_probe() -> CaseReport {
+    CaseReport { inconclusive: Some("built without the real-adapter family".into()), ..Default::default() }
+}
